@@ -3283,3 +3283,51 @@ func ruleHexStringCloserConsumed(c *eng.Ctx) {
 		c.Ok(R, eng.FuncName(fn)+"#closer", fn.Pos(), "not evaluated: the function does not compare the byte under its cursor with '>'")
 	}
 }
+
+// ---------------------------------------------------------------------------------------------------------------
+// R19.13 flushing a pending list inside a list does not end the list.
+
+// R19.13 [C19]
+func ruleListStateEndsWithList(c *eng.Ctx) {
+	const R = "R19.13-LIST-STATE-ENDS-WITH-LIST"
+	c.Rule(R, "the DOM walks of the HTML reader set parseContext.inList to false only where the list element that set it is left (under the test that the walk was not in a list when that element was entered): a block met inside a list (a p, heading or table between two li) may flush the items collected so far, but clearing the flag there makes the li case ignore every later item of the same list", 2, 0)
+	n := 0
+	for _, name := range []string{"htmldoc.(*Reader).traverseNode", "htmldoc.(*Reader).traverseNodeFiltered"} {
+		fn := c.P.Func(name)
+		if fn == nil {
+			c.Undec(R, name, token.NoPos, "anchor not found")
+			continue
+		}
+		for _, h := range eng.Cluster(fn, 1) {
+			if h.Pkg != fn.Pkg {
+				continue
+			}
+			eng.Instrs(h, true, func(in ssa.Instruction) {
+				st, ok := in.(*ssa.Store)
+				if !ok {
+					return
+				}
+				fr, ok := eng.AsField(st.Addr)
+				if !ok || fr.Field != "inList" {
+					return
+				}
+				k, isC := st.Val.(*ssa.Const)
+				if !isC || k.Value == nil || k.Value.ExactString() != "false" {
+					return
+				}
+				n++
+				restored := eng.GuardedBy(in.Parent(), in.Block(), func(f eng.Fact) bool {
+					if f.Pos {
+						return false
+					}
+					fr2, ok := eng.LoadOfField(f.Cond)
+					return ok && fr2.Field == "inList"
+				})
+				c.Check(restored, R, fmt.Sprintf("%s#inList=false@%s", eng.FuncName(in.Parent()), c.P.Pos(st.Pos())), st.Pos(), "cleared where the list element that set it is left", "inList is cleared in the middle of a list (not under the test of the state at the list's entry): the items that follow in the same list are ignored by the li case and their text is lost")
+			})
+		}
+	}
+	if n == 0 {
+		c.Ok(R, "htmldoc#inList", token.NoPos, "not evaluated: the walks do not clear an inList flag")
+	}
+}
